@@ -737,14 +737,14 @@ type c09Env struct {
 	nfsm   int
 }
 
-func c09NewEnv(t *testing.T) *c09Env {
+func c09NewEnv(t *testing.T, mmap string) *c09Env {
 	// bbolt's initial mmap size is a documented tunable; the 100 GB default costs
 	// most of the run time when thousands of short-lived databases are opened.
-	// 64 MiB is far above what any database of this harness reaches, so bbolt
-	// never has to remap (a remap waits for open read transactions, which the
-	// single-goroutine leader workload keeps open on purpose).
+	// The leader test uses 64 MiB, far above what its database reaches, so bbolt
+	// never has to remap there (a remap waits for open read transactions, which
+	// the single-goroutine leader workload keeps open on purpose).
 	if os.Getenv("BAO_RAFT_INITIAL_MMAP_SIZE") == "" {
-		t.Setenv("BAO_RAFT_INITIAL_MMAP_SIZE", "67108864")
+		t.Setenv("BAO_RAFT_INITIAL_MMAP_SIZE", mmap)
 	}
 	root := os.TempDir()
 	if st, err := os.Stat("/dev/shm"); err == nil && st.IsDir() {
@@ -1551,7 +1551,7 @@ func TestVerif_C09_Logs(t *testing.T) {
 	seed := kit.Seed(9)
 	r := kit.NewResult(t, "c09-logs", seed, "a case is one generated leader-consistent raft log (plain puts/deletes, transactions with honest read/list verification entries for a start index anywhere in the past, shipped LowestActiveIndex, chunked and unchunked encodings interleaved, term changes, configuration entries, index gaps) applied to a reference replica (one entry per batch) and R-1 further replicas differing in batching, restart, crash, local snapshot and snapshot-install position; non-trivial = the log contains both a transaction ground truth commits and one it rejects; distinct by log digest")
 	defer r.Write(t)
-	env := c09NewEnv(t)
+	env := c09NewEnv(t, "0")
 	ncases := kit.N(1000, 50000)
 	nrep := kit.N(6, 10)
 	shard, shards := kit.Shard()
@@ -1603,7 +1603,7 @@ func TestVerif_C09_Small(t *testing.T) {
 	seed := kit.Seed(9)
 	r := kit.NewResult(t, "c09-small", seed, "a case is one generated log of at most 8 raft entries applied under ALL partitions into batches (never-restarted replicas), a restart and a crash at EVERY position (entry-per-batch and maximal batches) and a snapshot install at EVERY position; non-trivial = contains a transaction that ground truth rejects and one it commits; distinct by log digest")
 	defer r.Write(t)
-	env := c09NewEnv(t)
+	env := c09NewEnv(t, "0")
 	ncases := kit.N(120, 4000)
 	shard, shards := kit.Shard()
 	sampled := 0
@@ -1763,21 +1763,56 @@ func c09LeaderWorkload(r *kit.Result, b *RaftBackend, rng *kit.Rand, steps int) 
 		return true
 	}
 	val := func() []byte { return []byte(kit.Pick(rng, c09Vals)) }
+	// Fixed prologue: a transaction that pages through a prefix containing a folder
+	// with two children while a write OUTSIDE that prefix lands inside its window.
+	// The leader applies it on the fast path; a replica that lost its tracker inside
+	// the window can only decide it by verifying the shipped entries in full.
+	for _, lim := range []int{1, -1} {
+		for _, k := range []string{"a/d/x", "a/d/y", "a/k1"} {
+			if err := b.Put(ctx, &physical.Entry{Key: k, Value: []byte("v0")}); err != nil {
+				r.Inconc("leader put: %v", err)
+				return nil, nil, false
+			}
+		}
+		tx, err := b.BeginTx(ctx)
+		if err != nil {
+			r.Inconc("leader begin: %v", err)
+			return nil, nil, false
+		}
+		o := &c09OpenTxn{tx: tx, wrote: true, steps: []string{fmt.Sprintf("begin at applied index %d", b.AppliedIndex())}}
+		got, err := tx.ListPage(ctx, "a/", "", lim)
+		if err == nil {
+			err = tx.Put(ctx, &physical.Entry{Key: "b/k1", Value: []byte("v1")})
+		}
+		if err == nil {
+			err = b.Put(ctx, &physical.Entry{Key: "c", Value: []byte(fmt.Sprintf("v%d", lim+1))})
+		}
+		if err != nil {
+			r.Inconc("leader prologue: %v", err)
+			return nil, nil, false
+		}
+		o.steps = append(o.steps, fmt.Sprintf("listpage \"a/\" after \"\" limit %d -> %v", lim, got), "put b/k1", "(plain put c by another client)")
+		open = append(open, o)
+		if !finish(0, true) {
+			return nil, nil, false
+		}
+		r.Count("leader_txn_lists", 1)
+	}
 	for s := 0; s < steps; s++ {
 		x := rng.Intn(100)
 		switch {
-		case x < 20:
+		case x < 15:
 			k := kit.Pick(rng, c09Keys)
 			if err := b.Put(ctx, &physical.Entry{Key: k, Value: val()}); err != nil {
 				r.Inconc("leader put: %v", err)
 				return nil, nil, false
 			}
-		case x < 27:
+		case x < 20:
 			if err := b.Delete(ctx, kit.Pick(rng, c09Keys)); err != nil {
 				r.Inconc("leader delete: %v", err)
 				return nil, nil, false
 			}
-		case x < 40:
+		case x < 35:
 			if len(open) < 3 {
 				tx, err := b.BeginTx(ctx)
 				if err != nil {
@@ -1786,7 +1821,7 @@ func c09LeaderWorkload(r *kit.Result, b *RaftBackend, rng *kit.Rand, steps int) 
 				}
 				open = append(open, &c09OpenTxn{tx: tx, steps: []string{fmt.Sprintf("begin at applied index %d", b.AppliedIndex())}})
 			}
-		case x < 78:
+		case x < 75:
 			if len(open) == 0 {
 				continue
 			}
@@ -1950,9 +1985,9 @@ func c09FromLeader(b *RaftBackend, verdicts map[uint64]bool) (*c09Log, error) {
 
 func TestVerif_C09_LeaderLog(t *testing.T) {
 	seed := kit.Seed(9)
-	r := kit.NewResult(t, "c09-leaderlog", seed, "a real single-node raft leader runs a seeded workload of plain writes and up to three interleaved read-write transactions (Get/ListPage/Put/Delete through the transaction API); a case is one replica that replays the leader's own raft log under some batching and restart/crash/install position; its per-transaction verdicts must equal what the leader reported to its client and its bucket must equal the leader's; non-trivial = the replica was reset inside the window of a transaction the leader rejected; distinct by (leader session, plan)")
+	r := kit.NewResult(t, "c09-leaderlog", seed, "a real single-node raft leader runs a seeded workload of plain writes and up to three interleaved read-write transactions (Get/ListPage/Put/Delete through the transaction API); a case is one replica that replays the leader's own raft log under some batching and restart/crash/install position; its per-transaction verdicts must equal what the leader reported to its client and its bucket must equal the leader's; non-trivial = a replica with a restart, crash or snapshot-install event (positions are drawn from inside transaction windows, preferably of transactions the leader rejected); distinct by (leader session, plan)")
 	defer r.Write(t)
-	env := c09NewEnv(t)
+	env := c09NewEnv(t, "67108864")
 	shard, shards := kit.Shard()
 	sessions := kit.N(2, 12)
 	for sess := 0; sess < sessions; sess++ {
@@ -1968,7 +2003,7 @@ func TestVerif_C09_LeaderLog(t *testing.T) {
 			t.Fatal(err)
 		}
 		b := c09Leader(t, dir)
-		verdicts, scripts, ok := c09LeaderWorkload(r, b, rng, kit.N(700, 1500))
+		verdicts, scripts, ok := c09LeaderWorkload(r, b, rng, kit.N(2000, 4000))
 		if !ok {
 			continue
 		}
@@ -2070,9 +2105,9 @@ func TestVerif_C09_LeaderLog(t *testing.T) {
 		}
 	}
 	req := func(name string, quick int) { r.Require(name, int64(kit.N(quick, quick*6)/shards)) }
-	req("leader_txn_commit", 40)
-	req("leader_txn_conflict", 15)
-	req("leader_txn_lists", 60)
-	req("resets_inside_conflicting_txn_window", 15)
+	req("leader_txn_commit", 100)
+	req("leader_txn_conflict", 40)
+	req("leader_txn_lists", 200)
+	req("resets_inside_conflicting_txn_window", 30)
 	req("replica_runs", 60)
 }
